@@ -29,6 +29,12 @@ CHECKS = {
     "C10": (A, "4.10", "online strict RFC 1035 parser + echo/aux oracle on every datagram emitted at the process boundary",
             "held on every DNS-mode datagram the real programs emitted in the executed scenarios (model-client sessions over all query types/codecs/fragment sizes and real-client tunnel runs)",
             "strict parser written from RFC 1035 (simnet/dnsstrict.py); queries with '.'/NUL inside labels or malformed queries are outside the echo rule"),
+    "C12": (B, "4.12", "differential monitor over receive-buffer residues: same datagram + 6 different stale-buffer contents through the tree's dns_decode(), all observable outputs compared",
+            "held on every generated datagram (valid queries/answers of all 7 record types cut at every byte, pointers and label lengths reaching the datagram end, inflated RDLENGTH / TXT lengths) x 6 residues",
+            "sanitizers cannot see this class (the 64 KB buffer is addressable); a read past the end that cannot change any output is not reported"),
+    "C13": (A, "4.13", "system() boundary monitor: every command the real client passes to system() is matched against a strict grammar while a model server feeds hostile login replies",
+            "held on every executed login reply: four fields replaced individually and jointly by metacharacter strings, inet_addr-accepted non-dotted-quad forms, out-of-range numbers, fillers, random bytes; 7 query types x 5 downstream encodings",
+            "Linux ifconfig command grammar of tun.c; the interface name is local, not peer-derived"),
     "C14": (A, "4.14", "boundary multiset monitor (answers consume received queries) + quiescent-point held-query bound",
             "held on every executed history: each server answer matched one-to-one with a received query datagram; at every select() at most two distinct never-answered ping/data queries per session",
             "histories are seeded samples; session attribution uses the userid encoded in the query"),
